@@ -636,6 +636,30 @@ func (e *Eng) evalBuiltin(st *State, name string, call *ast.CallExpr) []*Val {
 			return []*Val{{Sort: "Slice", Go: t, Elems: []*Val{arr, scalar("0", "Int", nil), scalar(ln.T, "Int", nil)}}}
 		}
 		return []*Val{e.freshNonNil("make", t)}
+	case "copy":
+		dst := e.eval(st, call.Args[0])
+		src := e.eval(st, call.Args[1])
+		slen := "0"
+		switch src.Sort {
+		case "Slice":
+			slen = src.Elems[2].T
+		case "Str":
+			slen = "(slen " + src.T + ")"
+		}
+		if dst.Sort != "Slice" {
+			break
+		}
+		n := e.define("n", "Int", fmt.Sprintf("(imin %s %s)", dst.Elems[2].T, slen))
+		// the destination's elements are overwritten: its array content becomes unknown, other arrays are unchanged
+		if dt, ok := e.info.TypeOf(call.Args[0]).Underlying().(*types.Slice); ok {
+			e.pureWrite(st, dst.Elems[0].T, "slice element")
+			name, srt := e.elemsHeap(st, dt.Elem())
+			cur := e.heapSym(st, name, srt)
+			nh := e.declare(e.fresh("H.copy."+name), srt)
+			e.assume(st, fmt.Sprintf("(forall ((r Int)) (=> (not (= r %s)) (= (select %s r) (select %s r))))", dst.Elems[0].T, nh, cur))
+			st.heap[name] = nh
+		}
+		return []*Val{scalar(n, "Int", types.Typ[types.Int])}
 	case "delete":
 		e.gap("delete abstracted")
 		return nil
